@@ -14,45 +14,54 @@ PROPERTIES = ["C11"]
 MANIFEST = {
     "C11": {
         "technique": "Lean 4 proof (inductive invariants over all schedules of interleaving models of Mutex/Semaphore/Signal/"
-                     "Monitor/Thread over an assumed POSIX layer, any number of threads) + controlled-scheduler correspondence "
+                     "Monitor/Thread over an assumed POSIX layer, any number of threads) + tie by translation (control-flow tables of the member "
+                     "functions of Mutex/Signal/Monitor, deadline arithmetic incl. C's 64-bit semantics, constants and shapes regenerated from the "
+                     "current sources on every run and proved equal to what the model does) + controlled-scheduler correspondence "
                      "(real sources over a simulated POSIX layer, identical schedules replayed on the model)",
-        "text": "40 theorems (Props.lean 35, PropsDeadline.lean 5), none partial: safety over every reachable state of the Lean transition systems (a schedule is the universally quantified list "
-                "of (thread, action) choices; spurious wake-ups, EINTR, time-outs and clock ticks at any moment; unboundedly many "
+        "text": "59 theorems (Props.lean 40, PropsLock.lean 3, PropsCfg.lean 8, PropsDeadline.lean 8), none partial.  SAFETY over every reachable state of the Lean transition systems (a schedule is the universally quantified list "
+                "of (thread, action) choices; spurious wake-ups, EINTR, ENOSYS, time-outs and clock ticks at any moment; unboundedly many "
                 "threads): mutex_exclusive_reentrant, mutex_recursion_depth_counted, trylock_nonblocking_succeeds_when_free, sem_conservation, "
-                "sem_trywait_never_blocks, sem_wait_step_accounting (true = exactly one unit taken, false = nothing consumed and for the timed wait not before its deadline), "
+                "sem_trywait_never_blocks, sem_wait_step_accounting (a call consumes at most one unit and exactly when it returns true; false = nothing consumed and for the timed wait not before its deadline; "
+                "covers the ENOSYS polling fallback of wait(timeout), which is part of the model since round 7), sem_enosys_fallback_never_blocks_and_terminates, "
                 "signal_true_only_if_set_since_reset, signal_no_waiter_stuck_while_set, signal_set_releases_all_current_waiters, signal_future_waiter_returns_true_while_set, "
-                "signal_mutex_holder_can_step, monitor_waits_le_sets, monitor_set_consumed_by_exactly_one_true_return, monitor_false_return_after_deadline_keeps_flag, "
-                "monitor_set_after_take_releases_a_waiter, deadline_exact (model) and deadline_exact_{signal,monitor,semaphore} + deadline_model_is_translated_code over the "
-                "expressions TRANSLATED from the current Signal/Monitor/Semaphore.cpp on every run (Nstd/Generated/SyncDeadline.lean), "
-                "deadline_record, timed_false_only_after_deadline_{signal,monitor,semaphore}, join_returns_result (the value of the function the successful start handed over, both overloads), "
-                "thread_join_exactly_once, thread_start_refused_while_attached (the stored functor is not overwritten: fixes/sync/0002), thread_runs_started_function, Thr.finished_stable, "
-                "thread_dtor_waits_and_failed_start_is_clean, driver_stays_within_model; liveness over infinite runs: "
-                "sem_waiter_eventually_returns, sem_waiter_returns_if_enough_signals (weak fairness), signal_waiter_eventually_returns, signal_every_waiter_eventually_returns (present and future waiters) and "
+                "signal_mutex_holder_can_step, monitor_exclusive + monitor_lock_trylock_unlock (Monitor::lock/tryLock/unlock and the lock side of wait/set: one holder at a time, tryLock never blocks, wait gives the monitor up and has it back at every return, set() is never a holder), "
+                "monitor_waits_le_sets, monitor_conservation, monitor_set_consumed_by_exactly_one_true_return, monitor_false_return_after_deadline_keeps_flag, "
+                "monitor_set_after_take_releases_a_waiter (all Monitor theorems for both orders of set()), deadline_exact (model), deadline_record, "
+                "timed_false_only_after_deadline_{signal,monitor,semaphore} (semaphore: incl. the polling fallback for every ENOSYS budget), join_returns_result, "
+                "thread_join_exactly_once, thread_start_refused_while_attached (fixes/sync/0002), thread_runs_started_function, Thr.finished_stable, "
+                "thread_dtor_waits_and_failed_start_is_clean, sleep_not_early, driver_stays_within_model.  LIVENESS over infinite runs: "
+                "sem_waiter_eventually_returns, sem_waiter_returns_if_enough_signals, sem_closed_system_all_waiters_return (weak fairness; sem_timedwait not reporting ENOSYS to that waiter), signal_waiter_eventually_returns, signal_every_waiter_eventually_returns and "
                 "monitor_set_eventually_releases_a_waiter (weak fairness + starvation-free mutex [+ clients release the monitor]); "
-                "whatif_signal_consumed_by_timed_out_waiter_loses_a_wakeup (a what-if POSIX variant, not the assumed one).  The models are tied to the current sources on every run: the unmodified "
-                "Mutex/Semaphore/Signal/Monitor/Thread.cpp are compiled against a simulated POSIX layer (-include shim) and driven by "
+                "whatif_signal_consumed_by_timed_out_waiter_loses_a_wakeup, monitor_two_sets_may_release_only_one_waiter (reachable counter-example states).  "
+                "TRANSLATED FROM THE CURRENT SOURCES ON EVERY RUN (a source the translators do not recognise is a broken tie): "
+                "(a) tools/areas/_sync_cfg.py parses the 13 member functions of Mutex/Signal/Monitor (POSIX branch; small C++ subset) and executes them symbolically into canonical POSIX-level control-flow tables (Generated/SyncCfg.lean: pending call; per call result x flag value the flag store and the next call / returned value; equivalent control flow gives the same table); "
+                "mutex/signal/monitor_step_is_translated_code and signal/monitor_reachable_steps_follow_translated_code prove that EVERY step of Mutex.step / Signal.step / Monitor.step that completes a POSIX call does exactly what the table prescribes, translated_tables_have_no_other_program_points that the tables have no further program points; "
+                "(b) the deadline statements of the three timed waits (Generated/SyncDeadline.lean): deadline_exact_{signal,monitor,semaphore}, deadline_model_is_translated_code over unbounded Int, and deadline_64bit_no_overflow_exact_{signal,monitor,semaphore} over the same statements with C's LP64 semantics (truncating / %, every arithmetic node range-checked): for EVERY 64-bit time-out and clock < 9e18 s no signed overflow / division by zero, result = clock + timeout ms exactly, |tv_nsec| < 1e9, and for time-outs >= 0 normalised and equal to the unbounded version; "
+                "(c) shape and constants of Semaphore::wait(timeout)'s sem_timedwait loop + ENOSYS polling loop (Generated/SyncSemPoll.lean; Sem.poll_sleep_covers_step, poll_start_zero, poll_step_pos are proved about the extracted constants); "
+                "(d) what the Guards forward to, mutex kinds, initial flag / count of the constructors, the unit factor of Thread::sleep (Generated/SyncApi.lean; guards_and_constructors_as_modelled, Sleep.sleep_unit_covers_ms; the model's Mutex.init, Sleep.step and the driver's Guard mapping USE these values); destructors, Thread::Thread/~Thread, yield, getCurrentThreadId are shape-pinned; (e) the order of Monitor::set (Generated/SyncMonitorOrder.lean).  "
+                "CORRESPONDENCE RUN: the unmodified Mutex/Semaphore/Signal/Monitor/Thread.cpp are compiled against a simulated POSIX layer (-include shim) and driven by "
                 "a controlled scheduler; all schedules of generated 2-4 thread scenarios up to N scheduling points (every candidate "
-                "incl. spurious wake-up / EINTR / time-out / clock tick at each point), all schedules with a bounded number of "
+                "incl. spurious wake-up / EINTR / ENOSYS / time-out / clock tick at each point), all schedules with a bounded number of "
                 "deviations from the default policy at any depth, and random schedules are replayed on the model step by step (chosen "
                 "step, enabled set, return values, verdict), and an independent Python oracle evaluates the contracts of the property "
                 "on the implementation's trace (mutual exclusion, conservation, wait-true-only-if-set, stuck waiters, "
                 "timed-false-only-after-deadline in virtual time, join results, use of destroyed POSIX objects).  Mutex::Guard / Monitor::Guard, both start overloads, "
-                "Thread::getCurrentThreadId / yield are driven too; the ENOSYS polling fallback of Semaphore::wait(timeout) is executed on the implementation only and judged by the oracle.",
+                "Thread::getCurrentThreadId / yield / sleep and the ENOSYS polling fallback (scenario option N:<n>) are driven on both sides; branch-hit counters of the fallback are required in the evidence.",
         "note": "ASSUMED, not verified: the POSIX semantics of lean/Nstd/Sync/Posix.lean = harness/sync/sched.cpp (recursive/default "
                 "mutex, condition variable with spurious wake-ups, signal wakes exactly one chosen waiter, timed-out waiter does not "
-                "consume a signal, semaphore with EINTR, create/join, monotone virtual clock; no CLOCK_REALTIME jumps, no integer "
-                "overflow, time-outs >= 0, pthread_create fails at most a budgeted number of times); glibc/kernel are not verified.  "
-                "NOT IN THE LEAN MODEL (tie only): the ENOSYS fallback of Semaphore::wait(timeout) (the theorems assume sem_timedwait is implemented), Thread::sleep/yield/getCurrentThreadId, "
-                "the Guard classes (modelled as the lock/unlock/wait they forward to), constructors/destructors of the primitives.  "
-                "The translated deadline expressions use Lean's Int / and %, which agree with C's on the non-negative operands that occur (hypotheses of the theorems).  "
-                "unlock() by a thread that does not hold the Mutex is outside the contract: the model has no step for it (mutex_recursion_depth_counted says so).  "
+                "consume a signal, semaphore with EINTR / ENOSYS (budgeted), usleep returns once its time has passed, create/join, monotone virtual clock; no CLOCK_REALTIME jumps, "
+                "time-outs >= 0 in the transition systems (negative ones only in deadline_64bit_*), pthread_create fails at most a budgeted number of times); glibc/kernel are not verified.  "
+                "The control-flow tables tie WHICH call follows which result and what happens to the flag; the EFFECT of each POSIX call on mutex / wait set / semaphore / clock is the assumed layer, and the mapping program counter -> table node (Signal.at, Monitor.at, *.completes in PropsCfg.lean) is part of the statement.  "
+                "HAND-TRANSLATED and only tied by the correspondence run + shape pins: Semaphore (its three simple functions are single calls; the two loops of wait(timeout) are pinned token by token, so any rewrite of them is reported as a broken tie), Thread::start/join/~Thread (Thr system).  "
+                "int overflow of the poll loop variable (`int i` against an int64 time-out > 2^31 ms, reached after 24 days of polling) is outside the model.  "
+                "The liveness theorems for Semaphore exclude ENOSYS for the waiter in question (a poller needs the passage of time; its termination is sem_enosys_fallback_never_blocks_and_terminates, a per-step statement).  "
+                "unlock() by a thread that does not hold the Mutex / Monitor is outside the contract: the model has no step for it.  "
                 "One atomic step = one POSIX call + the library code up to the next one: the `signaled` flags are only accessed under "
                 "the internal mutex (by inspection; data races are not detectable by a baton scheduler).  Clients respect the API "
                 "preconditions (unlock / Monitor::wait by the holder; a Thread object is not restarted after join: in the model a thread id is used once).  Liveness is proved under weak fairness of every thread plus a "
-                "starvation-free mutex (weak fairness alone does not exclude starvation at the mutex); the semaphore statements need weak fairness only.  pthread_create failure and "
-                "~Thread are modelled and driven on both sides.  The hand translation into Model.lean is validated by the "
-                "correspondence run, not proved.  The model mirrors Signal::set as repaired by fixes/sync/0001 (broadcast before "
-                "unlock) and Thread::start(obj, member) as repaired by fixes/sync/0002.  The stress run on real pthreads (harness/sync_stress.cpp) is a test.",
+                "starvation-free mutex (weak fairness alone does not exclude starvation at the mutex); the semaphore statements need weak fairness only.  "
+                "The model mirrors Signal::set as repaired by fixes/sync/0001 (broadcast before "
+                "unlock) and Thread::start(obj, member) as repaired by fixes/sync/0002.  A change of the generated constants that the model imports (SyncSemPoll, SyncApi) forces a rebuild of the whole area (3-4 min) inside the check.  The stress run on real pthreads (harness/sync_stress.cpp) is a test.",
         "design_ref": "DESIGN.md 3/C11, docs/sync.md",
     }
 }
@@ -1459,6 +1468,10 @@ FIXED_SCENARIOS = [
     # Mutex::Guard / Monitor::Guard (nested; Guard::wait both forms), Thread::getCurrentThreadId / yield
     "scen mtx 0 0 0 1 0 0 T:0:start-1,mstart-2,tid,join-1,join-2 T:1:glock,glock,tid,gunlock,gunlock T:2:yield,try-2,glock,gunlock,unlock",
     "scen mon 0 5 999000000 1500000 1 0 T:0:start-1,start-2,yield,join-1,join-2 T:1:glock,gwait,gtwait-2,gunlock T:2:set,tid,set",
+    # a set() while nobody waits leaves the flag raised; the NEXT set(), issued after a waiter has taken the monitor, must still wake it
+    # (default schedule: main sets, thread 1 blocks in wait, thread 2 sets)
+    "scen mon 0 5 0 1000000 0 0 T:0:set,start-1,start-2,join-1,join-2 T:1:lock,wait,unlock T:2:set",
+    "scen mon 0 5 0 1000000 1 0 T:0:set,start-1,start-2,start-3,join-1,join-2,join-3 T:1:lock,twait-3,unlock T:2:set T:3:lock,wait,unlock",
     # the ENOSYS polling fallback of Semaphore::wait(timeout): for(i = 0; i < timeout; i += 10) { sem_trywait; usleep(10 ms) }
     "scen sem 0 5 995000000 5000000 0 1 N:2 T:0:start-1,start-2,signal,join-1,join-2 T:1:twait-25 T:2:twait-0,twait-10",
     "scen sem 1 5 0 10000000 0 0 N:3 T:0:start-1,start-2,join-1,join-2 T:1:twait-20,twait-15 T:2:twait-1,signal",
